@@ -826,3 +826,85 @@ def debiasers_small_samples(rng, n, res, problems):
                 bad = np.where(~np.isfinite(out))[0] if out.shape == (dX.size,) else np.array([0])
                 problems.append((f"{name}: {bad.size if out.shape == (dX.size,) else -1} of {dX.size} output steps non-finite / unassigned for finite input "
                                  f"(first {dX[bad[0]]}; smallest window sample {smallest} step(s))", case))
+
+
+# ------------------------------------------------------------------ C07: leap-year-only year sets through ALL eight debiasers (round 7)
+# Quantifier of C07 covered here: "all consecutive year ranges AND the leap-year-only year sets that a one-day window on day
+# 366 selects" x "all debiasers that use the windows (LinearScaling, DeltaChange, QuantileMapping, SDM, ECDFM, CDFt, QDM,
+# ISIMIP)".  A one-day window on day 366 hands EVERY per-window computation a sample whose years are NOT consecutive
+# ({y0 + 4k}; a gap of 8 across 1900 / 2100) -- in each of the three series.  Earlier cases ran such samples through CDFt /
+# QDM / LinearScaling only, or (ISIMIP) only with a single leap year in the corrected series and by chance of the (L, S) draw;
+# whatever a debiaser does per window WITH THE YEARS of its sample (ISIMIP: trend removal / restoration per year in steps 3
+# and 7, for every variable that detrends, with and without the significance test, with a significant and an insignificant
+# trend; CDFt / QDM: the loop over year windows) must cope with year sets that have gaps: the steps of day 366 are assigned
+# like all others, once, and the run returns a finite value at every step.
+def leap_year_sets_all_debiasers(rng, n, res, problems):
+    """Guards (well-formed input, as DESIGN.md §4 C07): the two calibration series cover >= 20 years (so the window on day 366
+    holds >= 4 values, 5 away from a century year); SDM / ECDFM, which fit a distribution to the corrected series' own window
+    sample, run only when that sample holds >= 5 steps on every day present."""
+    import scipy.stats
+
+    from ibicus.debias import ECDFM, ISIMIP
+
+    def year_ends(y0, ny, kd, m0):
+        if m0 is not None:  # whole last months, daily
+            return np.array([d for y in range(y0, y0 + ny) for d in dates_from(datetime.date(y, m0, 1), (datetime.date(y + 1, 1, 1) - datetime.date(y, m0, 1)).days)], dtype=object)
+        return np.array([datetime.date(y, 12, d) for y in range(y0, y0 + ny) for d in range(32 - kd, 32)], dtype=object)
+
+    def first_year(ny):
+        if rng.random() < 0.3:  # the period straddles a century year that is not a leap year (gap of 8 in the leap-year set)
+            return rng.choice(CENTURY_YEARS) - rng.randint(1, max(1, ny - 2))
+        return rng.randint(1950, 2090)
+
+    for k in range(n):
+        nprs = np.random.RandomState(rng.randint(0, 2**31 - 1))
+        kd, m0 = rng.choice([(1, None), (2, None), (3, None), (3, None), (0, 12)])
+        nyX = rng.choice([rng.randint(8, 12), rng.randint(8, 48), rng.randint(20, 48)])
+        nyA, nyB = rng.randint(20, 44), rng.randint(20, 44)
+        dX, dA, dB = (year_ends(first_year(ny), ny, kd, m0) for ny in (nyX, nyA, nyB))
+        doyX = indep_doy(dX)
+        smallest = int(np.bincount(doyX)[np.unique(doyX)].min())  # steps of the corrected series in its smallest one-day window
+        leap_years_X = sorted({d.year for d, q in zip(dX, doyX) if q == 366})
+        slope = rng.choice([0.0, 0.02, 0.3])  # K per year: trend insignificant / borderline / significant in the regression on annual means
+        ysl = rng.choice([1, 2, 3, 9])
+        ykw = dict(running_window_over_years_of_cm_future_length=ysl * rng.choice([1, 2, 3]), running_window_over_years_of_cm_future_step_length=ysl)
+        kw = dict(running_window_mode=True, running_window_length=1, running_window_step_length=1)
+        debs = dict(window_debiasers(1, 1, ykw))
+        debs["ISIMIP-psl"] = lambda: ISIMIP.from_variable("psl", **kw)
+        debs["ISIMIP-rlds"] = lambda: ISIMIP.from_variable("rlds", **kw)
+        debs["ISIMIP-tas-no-significance-test"] = lambda: ISIMIP.from_variable("tas", detrending_with_significance_test=False, **kw)
+        debs["ISIMIP-tas-no-detrending"] = lambda: ISIMIP.from_variable("tas", detrending=False, **kw)
+        debs["ECDFM-t"] = lambda: ECDFM.from_variable("tas", distribution=scipy.stats.norm, **kw)
+        names = [nm for nm in debs if smallest >= 5 or not nm.startswith(("ScaledDistributionMapping", "ECDFM"))]
+        if k >= 2:
+            names = [nm for nm in names if nm.startswith("ISIMIP")] + rng.sample([nm for nm in names if not nm.startswith("ISIMIP")], 3)
+        for name in names:
+            if name == "DeltaChange":
+                dO, dH, dF = dX, dA, dB
+            else:
+                dO, dH, dF = dA, dB, dX
+
+            def series(dates, mean, sd):
+                return tas_like(nprs, dates, mean, sd) + slope * np.array([d.year - dates[0].year for d in dates], dtype=float)
+
+            o, h, f = series(dO, 283, 3), series(dH, 285, 4), series(dF, 287, 4)
+            enc = pick_kind(rng)
+            case = {"what": "debiaser-leap-year-sets/" + name, "L": 1, "S": 1, "year_windows": {a.split("future_")[1]: int(b) for a, b in ykw.items()},
+                    "series_shape": f"last {kd} day(s) of each year" if m0 is None else f"month {m0} of each year, daily",
+                    "obs_years": f"{dO[0].year}..{dO[-1].year}", "cm_hist_years": f"{dH[0].year}..{dH[-1].year}", "cm_future_years": f"{dF[0].year}..{dF[-1].year}",
+                    "leap_years_of_corrected_series": leap_years_X, "trend_per_year": slope, "case_index": k, "seed": C.seed(), "time_encoding": enc}
+            n_out = dX.size
+            dO, dH, dF = present(dO, enc), present(dH, enc), present(dF, enc)
+            with warnings.catch_warnings():
+                warnings.simplefilter("ignore")
+                try:
+                    out = np.asarray(debs[name]().apply_location(o, h, f, dO, dH, dF))
+                except Exception as ex:  # noqa: BLE001
+                    problems.append((f"{name}: {type(ex).__name__}: {str(ex)[:120]} -- no value is returned for any time step (one-day windows; the window on day 366 "
+                                     f"holds the leap years only, a window on day 364 / 365 of year-end series the other years only)", case))
+                    continue
+            res.count(("deb-leap-sets", name, kd, m0, len(leap_years_X), tuple(leap_years_X[:1]), slope), True, sample=case if k < 1 else None)
+            if out.shape != (n_out,) or not np.isfinite(out).all():
+                bad = np.where(~np.isfinite(out))[0] if out.shape == (n_out,) else np.array([0])
+                problems.append((f"{name}: {bad.size if out.shape == (n_out,) else -1} of {n_out} output steps non-finite / unassigned for finite input "
+                                 f"(first {dX[bad[0]]}, day of year {int(doyX[bad[0]])})", case))
